@@ -110,18 +110,64 @@ fn vk_c03_apply_errexit() {
 pub struct MockChild;
 pub struct MockQueue { pub left: usize }
 impl MockQueue { pub fn pop_front(&mut self) -> Option<MockChild> { if self.left > 0 { self.left -= 1; Some(MockChild) } else { None } } }
-pub struct WOracle { pub codes: [u8; 3], pub next: usize, pub fg: u8 }
+pub struct WOracle { pub codes: [u8; 3], pub flows: [u8; 3], pub next: usize, pub fg: u8 }
 impl WOracle {
     fn wait(&mut self, _child: MockChild) -> Result<ExecutionWaitResult, error::Error> {
         let i = self.next; self.next += 1;
         kani::assume(i < 3);
-        Ok(ExecutionWaitResult::Completed(ExecutionResult::new(self.codes[i])))
+        let mut r = ExecutionResult::new(self.codes[i]);
+        // what the stage asked for: 0 nothing, 1 exit, 2 return, 3 break
+        r.next_control_flow = match self.flows[i] { 1 => ExecutionControlFlow::ExitShell, 2 => ExecutionControlFlow::ReturnFromFunctionOrScript, 3 => ExecutionControlFlow::BreakLoop { levels: 0 }, _ => ExecutionControlFlow::Normal };
+        Ok(ExecutionWaitResult::Completed(r))
     }
     fn foreground(&mut self) -> Result<(), error::Error> { self.fg += 1; Ok(()) }
 }
 fn t_pipewait(pipeline: &ast::Pipeline, mut process_spawn_results: MockQueue, shell: &mut Sh, params: &ExecutionParameters, __o: &mut WOracle) -> Result<ExecutionResult, error::Error> {
 /*@LIFT pipewait*/
 }
+
+fn three_stages(n: usize) -> Vec<ast::Command> {
+    let mut v = Vec::with_capacity(3);
+    let mut i = 0; while i < n { v.push(ast::Command::Simple(ast::SimpleCommand { prefix: None, word_or_name: None, suffix: None })); i += 1; }
+    v
+}
+
+fn stage_requests(n: usize) {
+    let mut shell: Sh = Shell::default();
+    let lastpipe: bool = kani::any(); let jobctl: bool = kani::any();
+    shell.options_mut().run_last_pipeline_cmd_in_current_shell = lastpipe;
+    shell.options_mut().enable_job_control = jobctl;
+    let params = ExecutionParameters::default();
+    let single = n == 1;
+    let p = ast::Pipeline { timed: None, bang: false, seq: three_stages(n) };
+    let q = MockQueue { left: n };
+    let flows: [u8; 3] = [any_below(4), any_below(4), any_below(4)];
+    let mut o = WOracle { codes: [kani::any(), kani::any(), kani::any()], flows, next: 0, fg: 0 };
+    let r = vk_ok(t_pipewait(&p, q, &mut shell, &params, &mut o));
+    let last = n - 1;
+    let last_in_current_shell = single || (lastpipe && !jobctl);
+    kani::cover!(single || (!last_in_current_shell && flows[2] == 1 && o.codes[2] == 3), "exit_3_in_the_last_stage_of_three");
+    kani::cover!(!single || flows[0] == 1, "plain_exit");
+    kani::cover!(single || (last_in_current_shell && flows[2] == 2), "return_in_the_last_stage_under_lastpipe");
+    assert!(u8::from(r.exit_code) == o.codes[last], "C02.pipeline.status_is_the_last_stages");
+    if last_in_current_shell { assert!(r.is_normal_flow() == (flows[last] == 0), "C02.pipeline.request_of_a_stage_in_the_current_shell_passes_through"); }
+    else { assert!(r.is_normal_flow(), "C02.pipeline.requests_of_a_stage_in_its_own_subshell_do_not_reach_the_parent"); }
+    std::mem::forget(p); std::mem::forget(shell); std::mem::forget(params);
+}
+
+//@proof {'props': ['C02', 'C16', 'C11'], 'tier': 'quick', 'timeout': 900, 'uses': ['pipewait'], 'bounds': 'a pipeline of 3 stages; each stage ends with any status and asks for nothing / exit / return / break (symbolic); lastpipe and job-control options symbolic', 'desc': 'a stage that ran in its own subshell hands back a status only - `true | exit 3; echo after` goes on, `true | return 4` does not return from the function; the last stage under lastpipe without job control runs in the current shell and keeps its request'}
+#[kani::proof]
+#[kani::unwind(5)]
+#[kani::stub(std::hash::RandomState::new, crate::vk_prelude::stub_random_state_new)]
+#[kani::stub(std::time::SystemTime::now, crate::vk_prelude::stub_now)]
+fn vk_c02_pipeline_stage_requests_stay_in_their_subshell() { stage_requests(3); }
+
+//@proof {'props': ['C02', 'C16'], 'tier': 'quick', 'timeout': 900, 'uses': ['pipewait'], 'bounds': 'a single command; status any u8; request nothing / exit / return / break (symbolic); options symbolic', 'desc': 'a single command runs in the current shell: its exit / return / break request passes through the pipeline layer'}
+#[kani::proof]
+#[kani::unwind(5)]
+#[kani::stub(std::hash::RandomState::new, crate::vk_prelude::stub_random_state_new)]
+#[kani::stub(std::time::SystemTime::now, crate::vk_prelude::stub_now)]
+fn vk_c02_single_command_request_passes_through() { stage_requests(1); }
 
 //@proof {'props': ['C03', 'C11'], 'tier': 'quick', 'timeout': 900, 'uses': ['pipewait'], 'bounds': '3 stages, statuses any u8, pipefail symbolic', 'render': 'pipefail', 'desc': 'a | b | c: every stage is waited for in order; PIPESTATUS lists all three; status is that of c, or with pipefail that of the last (rightmost) failing stage; $? agrees'}
 #[kani::proof]
@@ -133,9 +179,9 @@ fn vk_c03_pipefail_3() {
     let pipefail: bool = kani::any();
     shell.options_mut().return_last_failure_from_pipeline = pipefail;
     let params = ExecutionParameters::default();
-    let p = ast::Pipeline { timed: None, bang: false, seq: Vec::new() };
+    let p = ast::Pipeline { timed: None, bang: false, seq: three_stages(3) };
     let q = MockQueue { left: 3 };
-    let mut o = WOracle { codes: [kani::any(), kani::any(), kani::any()], next: 0, fg: 0 };
+    let mut o = WOracle { codes: [kani::any(), kani::any(), kani::any()], flows: [0; 3], next: 0, fg: 0 };
     let r = vk_ok(t_pipewait(&p, q, &mut shell, &params, &mut o));
     let c = o.codes;
     kani::cover!(pipefail && c[2] == 0 && c[0] != 0 && c[1] == 0, "first_stage_failure_surfaces");
